@@ -14,7 +14,6 @@ def obligations(tier):
         per = 6 ** (nops - 1) // 6
         obs.append(Obl("sched-N%d-first%d-part%d" % (nops, first, part), "c16_thread.c", defs=["NOPS=%d" % nops, "FIRST=%d" % first, "noreturn=", "SC_BASE=%d" % (part * per)],
                 unwind=nops + 4, n_entries=per, timeout=120, mem_gb=4, object_bits=9,
-                kf=["C16-restart-no-worker"],
                 bounds={"history_length": nops, "first": "thread_start" if first == 0 else "control op", "scenarios": "%d..%d of %d" % (part * per, (part + 1) * per - 1, 6 ** (nops - 1))},
                 units=["lib/log_thread.c"], stubs=["counting semaphores", "ghost locks", "pthread_create/join/exit model", "qb_log_thread_log_write = recorder"]))
     return obs
